@@ -38,3 +38,102 @@ impl Encode for AddressFamily {
             && forall|i: int| 1 <= i < old(raw_value)@.len() ==> final(raw_value)@[i] == old(raw_value)@[i],
 //@end
 }
+
+// ---------------------------------------------------------------- ErrorCode (RFC 8489 14.8): reserved(21)=0 class(3) number(8) reason(UTF-8)
+// The struct keeps its private fields (module + KEEPPRIV) so that the range 300..700 established by `new` is a Verus
+// type invariant: that invariant is why class()/number() cannot panic.
+pub mod vx_error_code {
+    use super::*;
+    use vstd::string::*;
+//@consts stun_rs :: mod types
+//@item stun_rs :: mod types > struct ErrorCode
+//@rules KEEPPRIV
+//@end
+impl ErrorCode {
+    #[verifier::type_invariant]
+    pub closed spec fn inv(self) -> bool { 300 <= self.error_code < 700 }
+    pub closed spec fn code(self) -> u16 { self.error_code }
+    pub closed spec fn reason_chars(self) -> Seq<char> { self.reason@ }
+//@item stun_rs :: mod types > impl ErrorCode > fn new
+//@tags C19 C02
+//@sub "String::from(reason)" => "vx_string_from(reason)"
+//@closure 1
+|| -> (s: Self)
+    requires 300 <= error_code < 700,
+    ensures s.error_code == error_code && s.reason@ == reason@,
+//@spec
+    ensures r is Ok <==> 300 <= error_code < 700,
+        r is Ok ==> r->Ok_0.code() == error_code && r->Ok_0.reason_chars() == reason@,
+//@end
+//@item stun_rs :: mod types > impl ErrorCode > fn error_code
+//@tags C19
+//@spec
+    ensures r == self.code(), 300 <= r < 700,
+//@head
+    proof { use_type_invariant(self); }
+//@end
+//@item stun_rs :: mod types > impl ErrorCode > fn class
+//@tags C19 C02 C03
+//@spec
+    ensures r == self.code() / 100,
+//@head
+    proof { use_type_invariant(self); }
+//@end
+//@item stun_rs :: mod types > impl ErrorCode > fn number
+//@tags C19 C02 C03
+//@spec
+    ensures r == self.code() % 100,
+//@head
+    proof { use_type_invariant(self); }
+//@end
+//@item stun_rs :: mod types > impl ErrorCode > fn reason
+//@tags C19
+//@spec
+    ensures r@ == self.reason_chars(),
+//@end
+}
+impl Clone for ErrorCode {
+//@item stun_rs :: mod types > impl ::core::clone::Clone for ErrorCode > fn clone
+//@tags C19
+//@spec
+    ensures r == *self,
+//@head
+    proof { use_type_invariant(self); }
+//@end
+}
+pub open spec fn error_code_wire(code: int, reason: Seq<char>) -> Seq<u8> {
+    seq![0u8, 0u8, (code / 100) as u8, (code % 100) as u8] + vstd::utf8::encode_utf8(reason)
+}
+impl Decode<'_> for ErrorCode {
+//@item stun_rs :: mod types > impl crate::Decode<'_> for ErrorCode > fn decode
+//@tags C02 C03 C01
+//@sub "reason.len()" => "vx_str_len(reason)"
+//@before "if !(3..=6).contains(&class)"
+    proof { let b = raw_value[2]; assert(b & 0x07 == b % 8) by (bit_vector); }
+//@before "if vx_str_len(reason)"
+    proof {
+        broadcast use vstd::utf8::group_utf8_lib;
+        assert(reason.spec_bytes() == vstd::utf8::encode_utf8(reason@));
+    }
+//@spec
+    // class = low 3 bits of byte 2 (the 21 reserved bits are ignored), must be 3..=6; number = byte 3, must be 0..=99
+    ensures r is Ok <==> raw_value@.len() >= 4 && 3 <= raw_value@[2] % 8 <= 6 && raw_value@[3] <= 99
+            && vstd::utf8::valid_utf8(raw_value@.subrange(4, raw_value@.len() as int)) && raw_value@.len() - 4 <= 763,
+        r is Ok ==> r->Ok_0.1 == raw_value@.len() && r->Ok_0.0.code() == (raw_value@[2] % 8) * 100 + raw_value@[3]
+            && vstd::utf8::encode_utf8(r->Ok_0.0.reason_chars()) == raw_value@.subrange(4, raw_value@.len() as int),
+//@end
+}
+impl Encode for ErrorCode {
+//@item stun_rs :: mod types > impl Encode for ErrorCode > fn encode
+//@tags C02 C14 C01
+//@spec
+    ensures final(raw_value)@.len() == old(raw_value)@.len(),
+        r is Ok <==> vstd::utf8::encode_utf8(self.reason_chars()).len() <= 509
+            && old(raw_value)@.len() >= 4 + vstd::utf8::encode_utf8(self.reason_chars()).len(),
+        r is Ok ==> r->Ok_0 == 4 + vstd::utf8::encode_utf8(self.reason_chars()).len()
+            && final(raw_value)@.subrange(0, r->Ok_0 as int) == error_code_wire(self.code() as int, self.reason_chars())
+            && forall|i: int| r->Ok_0 <= i < old(raw_value)@.len() ==> final(raw_value)@[i] == old(raw_value)@[i],
+//@end
+}
+} // mod vx_error_code
+pub use vx_error_code::*;
